@@ -44,7 +44,7 @@ PROPS = {
         "assumptions": ["capacity limits (16 members, 14 groups) are preconditions"],
     },
     "C04": {
-        "claim": 'Decides GC7 completely: the tag write in add() is guarded by the pre-state tag being 0, the reset of edges, data and read status co-occurs with it on exactly the same paths, and no other path of add() writes anything; add() contains no always-compiled assertion about the vacant slot other than the documented preconditions (and "holds no unread datum", which counter exactness gives), so re-creating a collected id completes. CL1 (a clone has every slot of the vertex table of the original) is run as a premise: the statement holds on clones as well.',
+        "claim": 'Decides GC7 completely: the tag write in add() is guarded by the pre-state tag being 0, the reset of edges, data and read status co-occurs with it on exactly the same paths, and no other path of add() writes anything; add() contains no always-compiled assertion about the vacant slot other than the documented preconditions (and "holds no unread datum", which counter exactness gives), so re-creating a collected id completes. CL1 (a clone has every slot of the vertex table of the original) is run as a premise: the statement holds on clones as well. GC2 (a collection marks every member of the group absent) is run as a premise of 'an id whose vertex was collected is absent'.',
         "note": 'Trusted: rustc front end + engine; micromap::Map::new / Hex::empty produce blank values (read).',
         "technique": 'MIR guard + co-occurrence rule on add()',
         "rules": [("GC7", functools.partial(G.gc7, part="abc")), ("CL1/CL4", NX.cl1), ("GC2", G.gc2)],
@@ -110,7 +110,7 @@ PROPS = {
         "assumptions": [],
     },
     "C05": {
-        "claim": "Decides NX1–NX5, which give the whole statement with exhaustion as a precondition: the allocator position is written only in next_id(); the returned id is the key of a vertex-store item selected by a predicate true only for tag ∈ {0} and key ≥ the pre-state position; every path sets position := id + 1 unless it is already larger; clone copies the position (CL1); merge's descent adds the fresh id on the same paths and a script allocates only as the default of vars.entry(name).",
+        "claim": "Decides NX1–NX5, which give the whole statement with exhaustion as a precondition: the allocator position is written only in next_id(); the returned id is the key of a vertex-store item selected by a predicate true only for tag ∈ {0} and key ≥ the pre-state position; every path sets position := id + 1 unless it is already larger; clone copies the position (CL1); merge's descent adds the fresh id on the same paths and a script allocates only as the default of vars.entry(name). SC5 (a $-identifier reaches the variable table, never the number parser: exactly one sigil is removed) and MG3-6 (merge binds only to fresh or mapped left vertices) are run as premises of the last sentence of the statement.",
         "note": "Trusted: rustc front end + engine; emap iteration yields exactly the Some slots with their keys. Exhaustion (no absent id at or above the position) is a precondition.",
         "technique": "MIR who-may-write + closure-predicate summary + must-pass-through rules",
         "rules": [("NX1", NX.nx1), ("NX2/NX3", NX.nx23), ("NX4", NX.cl1), ("NX5", NX.nx5), ("SC5", SC.sc5), ("MG3-6", MG.mg3456)],
@@ -128,7 +128,7 @@ PROPS = {
         "assumptions": [],
     },
     "C08": {
-        "claim": "Decides the per-field and writer/reader clauses SZ1–SZ5, each a necessary condition of the round trip: the serialized-field inventory read from the derived impls' MIR is every field of Sodg and Vertex and every variant/payload of Hex, Label, Persistence, written unconditionally from the field itself and restored from the same position, the only omission being Sodg::next_v (omitted on both sides, rebuilt by Default); the ten impls are derived; save() serialises self whole and writes exactly those bytes to the path; load() decodes the whole file and returns that value unmodified, and produces no Err on a path on which the decode succeeded (an image save() wrote is not rejected afterwards); both use the same bincode configuration. Does not decide equality of behaviour under every continuation.",
+        "claim": "Decides the per-field and writer/reader clauses SZ1–SZ5, each a necessary condition of the round trip: the serialized-field inventory read from the derived impls' MIR is every field of Sodg and Vertex and every variant/payload of Hex, Label, Persistence, written unconditionally from the field itself and restored from the same position, the only omission being Sodg::next_v (omitted on both sides, rebuilt by Default); the ten impls are derived; save() serialises self whole and writes exactly those bytes to the path; load() decodes the whole file and returns that value unmodified, and produces no Err on a path on which the decode succeeded (an image save() wrote is not rejected afterwards); both use the same bincode configuration. Does not decide equality of behaviour under every continuation. GC9 (no slot of the three tables is ever removed) is run as a premise: the containers serialise a table with a hole differently from one without.",
         "note": "Trusted: rustc front end + engine; serde derive output semantics; bincode 1.3.3; the containers' Serialize/Deserialize pairs (read). Behavioural equivalence under all continuations is not decided.",
         "technique": "MIR inventory of derive-expanded serde impls + writer/reader agreement + provenance in save/load",
         "rules": [("SZ1", SZ.sz1), ("SZ2", SZ.sz2), ("SZ3-5", SZ.sz345), ("GC9", G.gc9)],
@@ -155,7 +155,7 @@ PROPS = {
         "assumptions": ["debug-assertion builds"],
     },
     "C03": {
-        "claim": "Decides all structural clauses RW1–RW7 + GC7b + GC8: bind(v1,v2,a) performs edges(v1).insert(a,v2) unconditionally with exactly its parameters; kid(v,a) returns the target of an edge of v only under label equality with a, None only after all edges were compared; kids(v) is the unfiltered iterator of v's edge map; put stores d.clone() unconditionally; data returns a copy of the stored datum in both the Stored and the Taken arm and None exactly in the Empty arm; edges/data/read status of graph vertices are written only by bind/put/data/add and only on vertices named by an id parameter; Label's Eq/Hash/Ord are derived; a recycled id is blanked and add() leaves a present vertex untouched (GC7, both parts); GC4 (counter pairing) is run as a premise — a counter that was not incremented makes the read of a present vertex stop in the decrement instead of returning the bytes. Value equality of bytes is delegated to the derived Clone of Hex and micromap's replace-in-place insert (trusted).",
+        "claim": "Decides all structural clauses RW1–RW7 + GC7b + GC8: bind(v1,v2,a) performs edges(v1).insert(a,v2) unconditionally with exactly its parameters; kid(v,a) returns the target of an edge of v only under label equality with a, None only after all edges were compared; kids(v) is the unfiltered iterator of v's edge map; put stores d.clone() unconditionally; data returns a copy of the stored datum in both the Stored and the Taken arm and None exactly in the Empty arm; edges/data/read status of graph vertices are written only by bind/put/data/add and only on vertices named by an id parameter; Label's Eq/Hash/Ord are derived; a recycled id is blanked and add() leaves a present vertex untouched (GC7, both parts); GC4 (counter pairing) is run as a premise — a counter that was not incremented makes the read of a present vertex stop in the decrement instead of returning the bytes. Value equality of bytes is delegated to the derived Clone of Hex and micromap's replace-in-place insert (trusted). MG3-6 (what merge() binds and stores on an existing vertex comes from the right vertex it is mapped to) are run as premises: a merge is a call on other vertices too.",
         "note": "Trusted: rustc front end + engine; micromap::Map::insert replaces the value of an equal key in place; derived Clone of Hex copies the bytes.",
         "technique": "MIR provenance + guard + who-may-write (frame) rules",
         "rules": [("RW1", RW.rw1), ("RW2", RW.rw2), ("RW3", RW.rw3), ("RW4/RW5", RW.rw45), ("RW6", RW.rw6), ("RW7", LB.lb7),
@@ -165,7 +165,7 @@ PROPS = {
         "assumptions": ["capacity limits and documented preconditions"],
     },
     "C11": {
-        "claim": "Decides MG1–MG6: nothing is written through the right-graph parameter (h is unchanged); the call closure of merge changes the left graph only through add/bind/put/next_id, so the GC state after a merge is one those calls produce and C01–C03 carry over; every bind(left,_,a) is control-dependent on kid(left,a) being None (an existing edge is never redirected); a new vertex is created exactly on the path where neither kid(left,a) nor the map has a target, as next_id → add(id) → bind(left,id,a); put(left,d) is guarded by the right vertex having data and d is that vertex's data; the descent recurses on (matched, to) after marking right in the map; merge() constructs an Err only on the edge where the completeness test fails (MG8: 'returns Ok' is not refused for any other reason; errors propagated from the descent aside). Does not decide that every labelled path of h exists afterwards with equal data nor injectivity of the mapping (graph-level value facts). Because the statement ends with 'afterwards g keeps obeying C01–C03', the rules for the three mutators merge() acts through are run as premises as well (GC4 counter accounting, GC5 joins, GC7 add, RW1 bind's edge insert, RW4/RW5 put/data), and MG5 demands that the datum is carried over under no condition other than the right vertex having one.",
+        "claim": "Decides MG1–MG6: nothing is written through the right-graph parameter (h is unchanged); the call closure of merge changes the left graph only through add/bind/put/next_id, so the GC state after a merge is one those calls produce and C01–C03 carry over; every bind(left,_,a) is control-dependent on kid(left,a) being None (an existing edge is never redirected); a new vertex is created exactly on the path where neither kid(left,a) nor the map has a target, as next_id → add(id) → bind(left,id,a); put(left,d) is guarded by the right vertex having data and d is that vertex's data; the descent recurses on (matched, to) after marking right in the map; merge() constructs an Err only on the edge where the completeness test fails (MG8: 'returns Ok' is not refused for any other reason; errors propagated from the descent aside). Does not decide that every labelled path of h exists afterwards with equal data nor injectivity of the mapping (graph-level value facts). Because the statement ends with 'afterwards g keeps obeying C01–C03', the rules for the three mutators merge() acts through are run as premises as well (GC4 counter accounting, GC5 joins, GC7 add, RW1 bind's edge insert, RW4/RW5 put/data), and MG5 demands that the datum is carried over under no condition other than the right vertex having one. NX2/NX3 run as premises: the descent needs a fresh id whenever one below the capacity is left.",
         "note": "Trusted: rustc front end + engine; std HashMap. merge() on non-tree input is outside the property (scoped exemption for the repair helper).",
         "technique": "MIR purity (read-only parameter) + who-may-call + guard/provenance rules on the descent",
         "rules": [("MG1", MG.mg1), ("MG2", MG.mg2), ("MG3-6", MG.mg3456), ("MG7/MG8", MG.mg78),
@@ -176,7 +176,7 @@ PROPS = {
         "assumptions": ["both graphs are trees of present vertices"],
     },
     "C12": {
-        "claim": "Decides MG7–MG8, the whole statement: every Ok(()) returned by merge() is control-dependent on the success of the descent and on equality between the size of the map the descent filled and the number of present vertices of the right graph; on the other edge an Err is returned whose text derives from the set difference keys(right) − mapped keys, sorted. Since the map gains one entry per visited right vertex (MG6), equality of the counts is completeness. GC7 (add() hands out a blank vertex) is run as a premise: a re-added id with stale edges would inflate the map the completeness test counts.",
+        "claim": "Decides MG7–MG8, the whole statement: every Ok(()) returned by merge() is control-dependent on the success of the descent and on equality between the size of the map the descent filled and the number of present vertices of the right graph; on the other edge an Err is returned whose text derives from the set difference keys(right) − mapped keys, sorted. Since the map gains one entry per visited right vertex (MG6), equality of the counts is completeness. GC7 (add() hands out a blank vertex) is run as a premise: a re-added id with stale edges would inflate the map the completeness test counts. XP1 (keys()/len() count exactly the present vertices) is run as a premise of the count the test compares with.",
         "note": "Trusted: rustc front end + engine; std HashMap/HashSet; MG6 (one map entry per visited right vertex) is checked under C11 and re-run here.",
         "technique": "MIR guard rule on the success return + provenance of the error text",
         "rules": [("MG7/MG8", MG.mg78), ("MG6", MG.mg3456),
@@ -189,7 +189,7 @@ PROPS = {
         "assumptions": [],
     },
     "C13": {
-        "claim": "Decides SL1–SL6: every insertion into the work set inside the closure loop is control-dependent on the visited set not containing that vertex and the vertex is marked on enqueue or dequeue (each vertex processed at most once: termination on cycles; roles found structurally); a vertex is enqueued only under p(from,to,label) true with exactly the scanned edge's components, every edge of a visited vertex being scanned and the scan loop never left by break or an early success return; the rebuild calls add/bind only, bind(v1,v2,k) with exactly (outer key, inner target, inner label) of the edge iterated, control-dependent on nothing but membership of both endpoints in the visited set; nothing is written through &self; the slice has the source's capacity; slice() passes the constantly-true predicate. Does not decide set equality with graph reachability as such. RW1, GC5 and GC7 (contracts of bind() and add(), with which the slice is rebuilt) are run as premises.",
+        "claim": "Decides SL1–SL6: every insertion into the work set inside the closure loop is control-dependent on the visited set not containing that vertex and the vertex is marked on enqueue or dequeue (each vertex processed at most once: termination on cycles; roles found structurally); a vertex is enqueued only under p(from,to,label) true with exactly the scanned edge's components, every edge of a visited vertex being scanned and the scan loop never left by break or an early success return; the rebuild calls add/bind only, bind(v1,v2,k) with exactly (outer key, inner target, inner label) of the edge iterated, control-dependent on nothing but membership of both endpoints in the visited set; nothing is written through &self; the slice has the source's capacity; slice() passes the constantly-true predicate. Does not decide set equality with graph reachability as such. RW1, GC5 and GC7 (contracts of bind() and add(), with which the slice is rebuilt) are run as premises. SL7: slice()/slice_some() build no Err of their own except to refuse a start id at or beyond the capacity.",
         "note": "Trusted: rustc front end + engine; std HashSet. Soundness of each copy, completeness of the scan and termination are decided; equality of the kept set with the reachable set follows by the standard work-list argument (hand).",
         "technique": "MIR visited-set discipline (guard + co-occurrence) + provenance of rebuild arguments + purity",
         "rules": [("SL1/SL2", SL.sl12), ("SL3-6", SL.sl3456), ("SL7", SL.sl7),
@@ -201,7 +201,7 @@ PROPS = {
         "assumptions": ["everything reachable from v is present and numbers at most 14 vertices"],
     },
     "C19": {
-        "claim": "Decides ND1–ND3, which remove every source of run-to-run or size dependence: values produced by iterating a std hash container, and loop bodies driven by them, reach only order-insensitive uses (set/map insert, contains, len, reads, the user predicate) unless sorted first — never a graph mutator, next_id or an unsorted returned sequence/string; time/random/environment sources feed logging only and no pointer is turned into a number; the const parameter N never occurs as a value and capacity() flows only into Sodg::empty, a diverging bound check or logging. Does not decide equality of whole traces across configurations as such.",
+        "claim": "Decides ND1–ND3, which remove every source of run-to-run or size dependence: values produced by iterating a std hash container, and loop bodies driven by them, reach only order-insensitive uses (set/map insert, contains, len, reads, the user predicate) unless sorted first — never a graph mutator, next_id or an unsorted returned sequence/string; time/random/environment sources feed logging only and no pointer is turned into a number; the const parameter N never occurs as a value and capacity() flows only into Sodg::empty, a diverging bound check or logging. Does not decide equality of whole traces across configurations as such. SZ3-5 (save/load use bincode's default configuration on the whole image: no size limit that a larger capacity would exceed) are run as premises.",
         "note": "Trusted: rustc front end + engine; micromap iteration is insertion-ordered and emap iteration ascending (deterministic), as read.",
         "technique": "MIR taint analysis (hash-iteration order, time, size parameters) with sort as sanitiser",
         "rules": [("ND1", SL.nd1), ("ND2", SL.nd2), ("ND3", SL.nd3), ("SZ3-5", functools.partial(SZ.sz345, roundtrip=False))],
@@ -210,7 +210,7 @@ PROPS = {
         "assumptions": ["sequences that fit within the limits of both configurations"],
     },
     "C14": {
-        "claim": "Decides SC1–SC4: in the per-command function the three graph calls are control-dependent on the command name (capture 1 of the command text) being equal to ADD / BIND / PUT and take add(id(arg0)), bind(id(arg0), id(arg1), Label::from_str(arg2)), put(id(arg0), data(arg1)) on the given graph, with no other graph mutation in the closure of deploy_to; one next_id per variable name (NX5); the returned count is incremented exactly once on the success edge of each deployed command and commands run in split(';') order through order-preserving adaptors only; no panicking operation on script-derived data outside an audited table (Regex::new on literals, captures that always participate, hex-pair parsing dominated by the hex-pairs regex). Does not decide the grammar itself (what the regular expressions accept: comment stripping, whitespace, hex formatting). SC5: Script::from_str stores exactly the text it is given, and an identifier loses exactly its one sigil before it reaches the number parser or the variable table.",
+        "claim": "Decides SC1–SC4: in the per-command function the three graph calls are control-dependent on the command name (capture 1 of the command text) being equal to ADD / BIND / PUT and take add(id(arg0)), bind(id(arg0), id(arg1), Label::from_str(arg2)), put(id(arg0), data(arg1)) on the given graph, with no other graph mutation in the closure of deploy_to; one next_id per variable name (NX5); the returned count is incremented exactly once on the success edge of each deployed command and commands run in split(';') order through order-preserving adaptors only; no panicking operation on script-derived data outside an audited table (Regex::new on literals, captures that always participate, hex-pair parsing dominated by the hex-pairs regex). Does not decide the grammar itself (what the regular expressions accept: comment stripping, whitespace, hex formatting). SC5: Script::from_str stores exactly the text it is given, and an identifier loses exactly its one sigil before it reaches the number parser or the variable table. LB2 (Label::from_str, which BIND parses its label with, returns Err and does not panic on an over-long text) is run as a premise.",
         "note": "Trusted: rustc front end + engine; regex crate semantics for the audited exceptions. The grammar (language accepted by the four regular expressions) is not code shape and is not decided; e.g. a trailing comment without newline is not stripped (DESIGN §4).",
         "technique": "MIR dispatch-table agreement (guard + argument provenance) + error-discipline rule",
         "rules": [("SC1", SC.sc1), ("SC2", NX.nx5), ("SC3", SC.sc3), ("SC4", SC.sc4), ("SC5", SC.sc5), ("LB2", LB.lb2)],
